@@ -417,12 +417,14 @@ pub struct Foreign<'r> {
     pub p_indef: u64,
     pub p_chunk: u64,
     pub p_perm: u64,
+    /// a `#6.258([..])` set written as the bare array older producers emit
+    pub p_untag: u64,
     pub stats: EncStats,
 }
 
 impl<'r> Foreign<'r> {
     pub fn new(rng: &'r mut Rng, p_wide: u64, p_indef: u64, p_chunk: u64, p_perm: u64) -> Self {
-        Foreign { rng, p_wide, p_indef, p_chunk, p_perm, stats: EncStats::default() }
+        Foreign { rng, p_wide, p_indef, p_chunk, p_perm, p_untag: 0, stats: EncStats::default() }
     }
     fn width(&mut self) -> u8 {
         if self.rng.below(1000) < self.p_wide {
@@ -499,6 +501,10 @@ impl<'r> Foreign<'r> {
                 if indef {
                     out.push(0xff);
                 }
+            }
+            Kind::Tag(258, inner) if self.p_untag > 0 && matches!(inner.kind, Kind::Array(_)) && self.rng.below(1000) < self.p_untag => {
+                self.stats.tag_toggles += 1;
+                self.emit(inner, out);
             }
             Kind::Tag(t, inner) => {
                 let w = self.width();
